@@ -67,6 +67,7 @@ def cases(draw):
     twins.append(("optref_in", "optself_in"))
     add("optbox_out", [], ["opt", ["box", host["name"], []], "std"])
     methods.append({"name": "optref_out", "attrs": [], "lifetimes": [["a", []]], "self": ["ref", "a", False], "params": [], "ret": ["opt", ["ref", "a", False, host["name"], []], "std"]})
+    methods.append({"name": "optmut_out", "attrs": [], "lifetimes": [["a", []]], "self": ["ref", "a", True], "params": [], "ret": ["opt", ["ref", "a", True, host["name"], []], "std"]})
     # struct-field position
     holder = {"kind": "struct", "name": "DvHolder", "attrs": [], "out": False, "lifetimes": [["a", []]],
               "fields": [["lead", ["prim", "u8"], []]] + [["f%d" % k, ["opt", copy.deepcopy(T), "dip"], []] for k, T in enumerate(payloads[:3])] + [["ptr", ["opt", ["ref", "a", False, host["name"], []], "std"], []]],
